@@ -49,6 +49,7 @@ class Cls:
     consts: Dict[str, ast.expr]
     fields: List[Tuple[str, Optional[ast.expr], Optional[ast.expr]]]
     is_dataclass: bool = False
+    is_namedtuple: bool = False
     dataclass_eq: bool = True
     path: str = ""
 
@@ -134,6 +135,11 @@ class Program:
     def _index_class(self, mod, n, path):
         q = f"{mod}.{n.name}"
         c = Cls(q, n.name, n, mod, n.bases, {}, {}, {}, {}, [], path=path)
+        if any(ast.unparse(b_).split(".")[-1] == "NamedTuple" for b_ in n.bases):
+            # typing.NamedTuple: fields from the annotations, positional / keyword construction, field-wise equality
+            # (like a frozen dataclass); index access and unpacking by field order are handled by the interpreter
+            c.is_dataclass = True
+            c.is_namedtuple = True
         for d in n.decorator_list:
             s = ast.unparse(d)
             if "dataclass" in s:
